@@ -145,7 +145,12 @@ fn run(case: &mut Case) -> Result<Outcome, String> {
             let exact: i128 = xi.iter().zip(&yi).map(|(a, b)| (*a as i128) * (*b as i128)).sum();
             // the same integers at other (exact power-of-two) scales: every product and partial sum stays exact,
             // also when the products are subnormal (e1 + e2 down to -1060) or huge
-            let (e1, e2) = if case.src.below(3) == 0 { (case.src.range(-530, 450) as i32, case.src.range(-530, 450) as i32) } else { (0, 0) };
+            // (one scaled case in three has both exponents in -530..-500: the products are then subnormal numbers)
+            let (e1, e2) = if case.src.below(3) == 0 {
+                if case.src.below(3) == 0 { (case.src.range(-530, -500) as i32, case.src.range(-530, -500) as i32) } else { (case.src.range(-530, 450) as i32, case.src.range(-530, 450) as i32) }
+            } else {
+                (0, 0)
+            };
             let x: Vec<f64> = xi.iter().map(|v| v * 2f64.powi(e1)).collect();
             let y: Vec<f64> = yi.iter().map(|v| v * 2f64.powi(e2)).collect();
             case.describe(|| format!("workers={} n={} integer data * 2^{} / 2^{}: x[..8]={:?} y[..8]={:?}", k, n, e1, e2, &xi[..n.min(8)], &yi[..n.min(8)]));
